@@ -352,3 +352,460 @@ def dead_decorate(prog, rng, p=0.45):
         body = fir.map_program([A('program'), u[1], u], fs=fs)[2][4]
         out.append([u[0], u[1], u[2], u[3], body])
     return fir.canon(out)
+
+
+def literal_selects(prog, rng):
+    """every SELECT CASE selector becomes an integer literal (covered class of the dead-code model)"""
+    def fs(stmts):
+        res = []
+        for s in stmts:
+            if h(s) == 'select' and h(s[1]) != 'i':
+                vals = [int(str(v)) for c in s[2] for v in c[0]]
+                s = [s[0], fir.ilit(rng.choice(vals + [7, -1])), s[2], s[3]]
+            res.append(s)
+        return res
+    return fir.canon(fir.map_program(prog, fs=fs))
+
+
+def _recase(w, rng, p):
+    r = rng.random()
+    if r < p * 0.5:
+        return w.upper()
+    if r < p:
+        return ''.join(c.upper() if rng.random() < 0.5 else c for c in w)
+    return w
+
+
+def recase_prog(prog, rng, p=0.6):
+    """FIR program with every name occurrence in random letter case (Fortran names are case-insensitive)"""
+    def nm(a):
+        return A(_recase(str(a), rng, p))
+
+    def ex(e):
+        if not isinstance(e, list):
+            return e
+        k = h(e)
+        if k in ('v', 'idx', 'sec', 'call'):
+            return [e[0], nm(e[1])] + [ex(c) for c in e[2:]]
+        return [e[0]] + [ex(c) for c in e[1:]]
+
+    def st(s):
+        k = h(s)
+        if k == 'do':
+            return [s[0], nm(s[1]), ex(s[2]), ex(s[3]), ex(s[4]), [st(x) for x in s[5]]]
+        if k == 'assoc':
+            return [s[0], [[nm(b[0]), ex(b[1])] for b in s[1]], [st(x) for x in s[2]]]
+        if k == 'callsub':
+            return [s[0], nm(s[1])] + [ex(a) for a in s[2:]]
+        if k == 'nop':
+            return s
+        if k == 'select':
+            return [s[0], ex(s[1]), [[c[0], [st(x) for x in c[1]]] for c in s[2]], [st(x) for x in s[3]]]
+        if k in ('while',):
+            return [s[0], ex(s[1]), [st(x) for x in s[2]]]
+        if k == 'if':
+            return [s[0], ex(s[1]), [st(x) for x in s[2]], [st(x) for x in s[3]]]
+        return [s[0]] + [ex(c) for c in s[1:]]
+    out = [prog[0], prog[1]]
+    for u in prog[2:]:
+        decls = [[d[0], nm(d[1]), d[2], d[3], [[ex(b[0]), ex(b[1])] for b in d[4]], ex(d[5])] for d in u[3]]
+        out.append([u[0], u[1] if str(u[1]) == str(prog[1]) else nm(u[1]), [nm(a) for a in u[2]], decls, [st(x) for x in u[4]]])
+    return fir.canon(out)
+
+
+# ====================================================================== observations for the correspondence
+
+_FILTER = set('''subroutine end implicit none integer real logical intent in out inout parameter do while if then else elseif
+select case default associate call print exit cycle and or not true false eqv neqv use only module contains int enddo endif
+kind'''.split())
+_LEX = re.compile(r"(?P<num>\d+\.?\d*(?:[eEdD][+-]?\d+)?(?:_\w+)?|\.\d+(?:[eEdD][+-]?\d+)?(?:_\w+)?)|(?P<id>[A-Za-z_]\w*)|(?P<other>.)", re.S)
+
+
+def ident_tokens(text):
+    """identifier tokens of Fortran text in order (comments, numbers, keywords and the conversion functions REAL/INT dropped;
+    intrinsic names inside PRINT statements lower-cased)"""
+    out = []
+    for line in text.splitlines():
+        code = line.split('!')[0]
+        in_print = code.strip().lower().startswith('print')
+        for m in _LEX.finditer(code):
+            if m.lastgroup == 'id' and m.group('id').lower() not in _FILTER:
+                w = m.group('id')
+                # fgen prints intrinsic names inside PRINT items (never visited by the transformation) in upper case
+                out.append(w.lower() if in_print and w.lower() in fir.INTRINSICS else w)
+    return out
+
+
+def decl_stmts_of(routine):
+    """[(attrs, [(name, shape)…])…] of the VariableDeclaration nodes of the routine's spec, in order"""
+    from loki.ir import FindNodes, VariableDeclaration
+    out = []
+    for d in FindNodes(VariableDeclaration).visit(routine.spec):
+        syms = []
+        attrs = None
+        for s in d.symbols:
+            t = s.type
+            a = f"{t.dtype.name.lower()} {str(t.intent).lower() if t.intent else 'none'}"
+            attrs = attrs or a
+            sh = getattr(s, 'shape', None)
+            syms.append((str(s.name), None if sh is None else [str(x).lower().replace(' ', '') for x in sh]))
+        out.append((attrs, syms))
+    return out
+
+
+def imports_of(routine):
+    return [(str(i.module).lower(), None if i.symbols is None else [str(s.name).lower() for s in i.symbols]) for i in routine.imports]
+
+
+# ---- abstract requests -> source text
+
+_TYTXT = {'integer': 'integer', 'real': 'real', 'logical': 'logical'}
+
+
+def decl_source(stmts):
+    """stmts: [(attrs 'type intent', [(name, shape or None)…])…] -> a routine with exactly these declaration statements"""
+    args = [n for a, syms in stmts if a.split()[1] != 'none' for n, _ in syms]
+    lines = [f"subroutine sdecl({', '.join(['n', 'm'] + args)})", '  implicit none', '  integer, intent(in) :: n, m']
+    for a, syms in stmts:
+        ty, it = a.split()
+        pre = _TYTXT[ty] + ('' if it == 'none' else f', intent({it})')
+        ents = [n if sh is None else f"{n}({', '.join(sh)})" for n, sh in syms]
+        lines.append(f"  {pre} :: {', '.join(ents)}")
+    lines += ['end subroutine sdecl', '']
+    return '\n'.join(lines)
+
+
+IMP_MODS = {'m1': ['va1', 'va2', 'va3', 'va4'], 'm2': ['vb1', 'vb2', 'vb3']}
+
+
+def imp_source(used, imps, members):
+    lines = []
+    for m, vs in IMP_MODS.items():
+        lines += [f'module {m}', '  implicit none'] + [f'  integer :: {v} = 1' for v in vs] + [f'end module {m}', '']
+
+    def scope(name, used, imps, ind, inner=()):
+        out = [f'{ind}subroutine {name}(k)']
+        for m, ss in imps:
+            out.append(f'{ind}  use {m}' + ('' if not ss else ', only: ' + ', '.join(ss)))
+        out += [f'{ind}  implicit none', f'{ind}  integer, intent(inout) :: k']
+        out.append(f'{ind}  k = ' + ' + '.join(['k'] + list(used)))
+        if inner:
+            out.append(f'{ind}contains')
+            for j, (u, i) in enumerate(inner):
+                out += scope(f'{name}_in{j + 1}', u, i, ind + '  ')
+        out.append(f'{ind}end subroutine {name}')
+        return out
+    lines += scope('simp', used, imps, '', members) + ['']
+    return '\n'.join(lines)
+
+
+# ====================================================================== requests
+
+def covered_dead(prog):
+    """Python mirror of Lean `DeadCovered`: every SELECT CASE selector is an integer literal"""
+    for u in prog[2:]:
+        for s in fir.iter_stmts(u[4]):
+            if h(s) == 'select' and not (h(s[1]) == 'i' or (h(s[1]) == 'neg' and h(s[1][1]) == 'i')):
+                return False
+    return True
+
+
+def _dec_shape(x):
+    return None if not isinstance(x, list) else [str(d) for d in x]
+
+
+def decode(req):
+    """-> (kind, normaliser key, source text, extra)"""
+    k = h(req)
+    if k == 'fir':
+        norm, prog = str(req[1]), req[2]
+        if len(req) != 3 or norm not in NORMALISERS or h(prog) != 'program' or len(prog) < 3:
+            raise ValueError('malformed request')
+        for u in prog[2:]:
+            if h(u) != 'unit' or len(u) != 5 or not all(isinstance(x, list) for x in u[2:]):
+                raise ValueError('malformed unit')
+        return 'fir', norm, fir.emit_fortran(prog, wrap_program=False), prog
+    if k == 'src':
+        norm = str(req[1])
+        if len(req) != 3 or norm not in NORMALISERS or not isinstance(req[2], str):
+            raise ValueError('malformed request')
+        return 'src', norm, req[2], None
+    if k == 'decl':
+        vars_ = None if not isinstance(req[1], list) else [str(v) for v in req[1]]
+        g = str(req[2]) == 'true'
+        stmts = []
+        for s in req[3:]:
+            if h(s) != 'stmt' or not isinstance(s[1], str) or len(s) < 3:
+                raise ValueError('malformed decl request')
+            syms = []
+            for y in s[2:]:
+                if h(y) != 'sym' or len(y) != 3:
+                    raise ValueError('malformed decl request')
+                syms.append((str(y[1]), _dec_shape(y[2])))
+            stmts.append((s[1], syms))
+        if not stmts:
+            raise ValueError('malformed decl request')
+        return 'decl', 'single', decl_source(stmts), (vars_, g, stmts)
+    if k == 'imp':
+        if len(req) != 4 or not all(isinstance(x, list) for x in req[1:]):
+            raise ValueError('malformed imp request')
+
+        def imps(xs):
+            out = []
+            for i in xs:
+                if h(i) != 'use' or len(i) != 3 or not isinstance(i[2], list):
+                    raise ValueError('malformed imp request')
+                out.append((str(i[1]), [str(s) for s in i[2]]))
+            return out
+        used = [str(x) for x in req[1]]
+        members = []
+        for m in req[3]:
+            if not isinstance(m, list) or len(m) != 2:
+                raise ValueError('malformed imp request')
+            members.append(([str(x) for x in m[0]], imps(m[1])))
+        ii = imps(req[2])
+        return 'imp', 'imports', imp_source(used, ii, members), (used, ii, members)
+    raise ValueError('malformed request')
+
+
+def _apply_for(kind, norm, extra):
+    if kind == 'decl':
+        vars_, g, _ = extra
+
+        def f(sf):
+            from loki.transformations.utilities import single_variable_declaration
+            for r in sf.all_subroutines:
+                single_variable_declaration(r, variables=None if vars_ is None else tuple(vars_), group_by_shape=g)
+        return f
+    return lambda sf: apply_norm(norm, sf)
+
+
+def run_once_twice(kind, norm, src, extra):
+    """-> (t0, t1, t2, problem, sf after the FIRST application is not kept)"""
+    from loki import fgen
+    sf = parse_enriched(src)
+    t0 = fgen(sf.ir)
+    f = _apply_for(kind, norm, extra)
+    try:
+        f(sf)
+        t1 = fgen(sf.ir)
+    except Exception as e:
+        raise FirstApplicationRaised(f'{type(e).__name__}: {str(e)[:160]}') from e
+    try:
+        f(sf)
+        t2 = fgen(sf.ir)
+    except Exception as e:
+        return t0, t1, None, f'second application raised {type(e).__name__}: {str(e)[:160]}'
+    return t0, t1, t2, None
+
+
+# ---- generators of abstract requests
+
+def gen_decl_req(rng):
+    names = iter(['a', 'b', 'c', 'd', 'e', 'f', 'g', 'p', 'q', 'r', 's', 't', 'u', 'v', 'w', 'x', 'y', 'z'])
+    shapes = [None, None, ['n'], ['n'], ['m'], ['n', 'm'], ['0:n'], ['2'], ['n', '2']]
+    stmts = []
+    all_names = []
+    for _ in range(rng.randint(1, 4)):
+        ty = rng.choice(('integer', 'real', 'real', 'logical'))
+        it = rng.choice(('none', 'none', 'in', 'inout'))
+        syms = []
+        for _ in range(rng.choice((1, 2, 2, 3, 4, 5))):
+            try:
+                n = next(names)
+            except StopIteration:
+                break
+            syms.append((n, rng.choice(shapes)))
+            all_names.append(n)
+        if syms:
+            stmts.append((f'{ty} {it}', syms))
+    mode = rng.random()
+    vars_ = None if mode < 0.4 else [n for n in all_names if rng.random() < 0.4] + (['zz'] if rng.random() < 0.2 else [])
+    g = rng.random() < 0.5
+    req = [A('decl'), A('none') if vars_ is None else [A(v) for v in vars_], g]
+    for a, syms in stmts:
+        req.append([A('stmt'), a] + [[A('sym'), A(n), A('none') if sh is None else list(sh)] for n, sh in syms])
+    return req, any(len(s) > 1 for _, s in stmts)
+
+
+def gen_imp_req(rng):
+    def gen_imps(extra_visible=()):
+        imps, visible = [], list(extra_visible)
+        for m, vs in IMP_MODS.items():
+            for _ in range(rng.choice((0, 1, 1, 2))):
+                if rng.random() < 0.15:
+                    imps.append((m, []))
+                    visible += vs
+                else:
+                    sel = [v for v in vs if rng.random() < 0.5]
+                    if sel:
+                        imps.append((m, sel))
+                        visible += sel
+        return imps, list(dict.fromkeys(visible))
+    imps, vis = gen_imps()
+    used = [v for v in vis if rng.random() < 0.5]
+    members = []
+    for _ in range(rng.choice((0, 0, 1, 2))):
+        mi, mv = gen_imps(vis)
+        members.append(([v for v in mv if rng.random() < 0.4], mi))
+
+    def enc(ii):
+        return [[A('use'), A(m), [A(s) for s in ss]] for m, ss in ii]
+    req = [A('imp'), [A(u) for u in used], enc(imps), [[[A(u) for u in mu], enc(mi)] for mu, mi in members]]
+    return req, bool(imps)
+
+
+GEN_CFG = dict(max_stmts=14, weights={'assoc': 10, 'assign_section': 14, 'if': 14, 'select': 6, 'call': 10})
+
+
+class C40(Prop):
+    id = 'C40'
+    title = 'Normalising transformations are idempotent'
+    model_modules = ['LokiModel.C40.Model', 'LokiModel.C40.Abstract', 'LokiModel.C40.Enc']
+    props_module = 'LokiModel.Props.C40'
+    findings_module = 'LokiModel.Findings.C40'
+    driver = 'Drivers/C40.lean'
+    theorems = ['lower_idem', 'deadcode_idem', 'deadcode_idem_stmts', 'single_decl_idem', 'sanitise_imports_idem',
+                'sanitise_routine_idem']
+    design_ref = 'DESIGN.md 4.F C40'
+    level = 'proof'
+    level_text = ('Proved at full strength (all inputs, no hypotheses) about the models: lower_idem (convert_to_lower_case on FIR programs '
+                  'with names of any case), deadcode_idem / deadcode_idem_stmts (do_remove_dead_code with use_simplify=False on FIR '
+                  'statement lists, including the fact that the second application does not raise), single_decl_idem '
+                  '(single_variable_declaration for every combination of variables/group_by_shape on declaration lists), '
+                  'sanitise_imports_idem / sanitise_routine_idem (eliminate_unused_imports on import lists, routine with member '
+                  'procedures).  Correspondence ties each of the four models to the real function.  Oracle only (fgen after one vs two '
+                  'real applications): associate resolution, vector-notation resolution, range-index normalisation, sequence-association '
+                  'resolution, dead-code removal with simplify, and all the modelled ones again.')
+    level_note = ('Trusted: the FIR printer/exporter of harness/fir.py, the Loki frontend (inputs are given as source text), the Lean '
+                  'driver and codec.  Modelled rather than verified: the used-name set of sanitise_imports is an input of the model '
+                  '(the real code computes it from the routine; the correspondence compares results); the lower-casing correspondence '
+                  'observes the sequence of identifier tokens of the printed code; SELECT selectors other than integer literals go through '
+                  'simplify and are outside the dead-code model (class DeadCovered).  A first application that raises is not a C40 matter '
+                  '(counted in the evidence, reported in notes/C40.md).')
+    technique = 'Lean 4 theorems about hand-written models of the normalisers + correspondence with the real code + once-vs-twice oracle'
+    rule = ('fir.gen_program (assoc/section/if/select/call-heavy) decorated per normaliser (random letter case, constant conditions and '
+            'literal selectors, merged declarations, 1:n bounds, module imports with used/unused symbols), random declaration lists with '
+            'options, random import lists with member procedures, hand-written corpus; non-trivial = the first application changes the text')
+    trusted_base = ['harness/fir.py (generator, printer, exporter)', 'Loki fparser frontend and fgen (observation of the result)']
+    assumptions = ['a first application that raises makes the property inapplicable to that input (counted, reported in the note)']
+    extra_obligations = ['oracle: fgen after one real application == after two, all listed normalisers']
+
+    def classes(self):
+        return []
+
+    # ---- generation
+    def gen(self, rng, tier):
+        per = {'quick': 3, 'thorough': 50, 'search': 15}.get(tier, 3)
+        nabs = {'quick': 20, 'thorough': 250, 'search': 80}.get(tier, 20)
+        for j in range(per):
+            base = fir.gen_program(rng, GEN_CFG)
+            for norm in NORMALISERS:
+                prog = base
+                if norm == 'lower':
+                    yield Case([A('fir'), A(norm), recase_prog(prog, rng)], stream='fir-lower')
+                    continue
+                if norm == 'deadns':
+                    yield Case([A('fir'), A(norm), literal_selects(dead_decorate(prog, rng), rng)], stream='fir-deadns')
+                    continue
+                if norm == 'dead':
+                    yield Case([A('fir'), A(norm), dead_decorate(prog, rng)], stream='fir-dead')
+                    continue
+                if norm in ('assoc', 'vector', 'seqassoc'):
+                    yield Case([A('fir'), A(norm), prog], stream='fir-' + norm)
+                    continue
+                src = fir.emit_fortran(prog, wrap_program=False)
+                if norm in ('single', 'singleshape'):
+                    src = multi_decl_text(src, rng)
+                elif norm == 'range':
+                    src = one_bounds_text(multi_decl_text(src, rng, 0.3), rng)
+                elif norm == 'imports':
+                    src = imports_text(src, rng)
+                yield Case([A('src'), A(norm), src], stream='src-' + norm)
+        for j in range(nabs):
+            req, nt = gen_decl_req(rng)
+            yield Case(req, stream='decl', nontrivial=nt)
+        for j in range(nabs):
+            req, nt = gen_imp_req(rng)
+            yield Case(req, stream='imp', nontrivial=nt)
+
+    # ---- real code
+    def impl(self, req):
+        from loki import fgen
+        kind, norm, src, extra = decode(req)
+        if kind == 'fir' and norm == 'lower':
+            sf = parse_enriched(src)
+            apply_norm('lower', sf)
+            return [A('names')] + ident_tokens(fgen(sf.ir))
+        if kind == 'fir' and norm == 'deadns':
+            if not covered_dead(extra):
+                return [A('uncovered')]
+            sf = parse_enriched(src)
+            try:
+                apply_norm('deadns', sf)
+            except Exception:
+                return [A('raised')]
+            return [A('result'), fir.export_unit(sf, main=fir.prog_main(extra))]
+        if kind == 'decl':
+            sf = parse_enriched(src)
+            _apply_for(kind, norm, extra)(sf)
+            out = [A('decls')]
+            for a, syms in decl_stmts_of(sf['sdecl'])[1:]:      # the first statement declares n, m
+                out.append([A('stmt'), a] + [[A('sym'), A(n), A('none') if sh is None else list(sh)] for n, sh in syms])
+            return out
+        if kind == 'imp':
+            sf = parse_enriched(src)
+            r = sf['simp']
+            _n_imports(r)
+
+            def enc(ii):
+                return [[A('use'), A(m), A('none') if ss is None else [A(s) for s in ss]] for m, ss in ii]
+            return [A('imports'), enc(imports_of(r)), [enc(imports_of(m)) for m in r.members]]
+        return [A('nomodel')]
+
+    def canon_model(self, resp):
+        k = h(resp)
+        if k == 'result' and len(resp) == 2:
+            return [A('names')] + ident_tokens(fir.emit_fortran(resp[1], wrap_program=False))
+        if k in ('result', 'raised') and str(resp[1]) == 'false':
+            return [A('uncovered')]
+        if k == 'result':
+            return [A('result'), fir.normalize(resp[2])]
+        if k == 'raised':
+            return [A('raised')]
+        return resp
+
+    # ---- direct oracle
+    def oracle(self, req):
+        kind, norm, src, extra = decode(req)
+        tag = norm if kind != 'decl' else f'single(variables={extra[0]}, group_by_shape={extra[1]})'
+        try:
+            t0, t1, t2, prob = run_once_twice(kind, norm, src, extra)
+        except FirstApplicationRaised as e:
+            stats[f'first-application-raised:{norm}:{str(e)[:60]}'] += 1
+            return []
+        stats['applied:' + norm] += 1
+        if t0 != t1:
+            stats['changed:' + norm] += 1
+        if prob:
+            return [Failure(f'{tag}: {prob}', None)]
+        if t1 != t2:
+            return [Failure(f'{tag}: fgen after two applications differs from fgen after one: {first_diff(t1, t2)}', None)]
+        return []
+
+    def post(self, cases, impl_out, model_raw, oracle_fail):
+        cov = {'normaliser_runs': {k: v for k, v in sorted(stats.items())}}
+        return [], cov
+
+    def shrink_candidates(self, req):
+        if h(req) == 'src':
+            lines = req[2].split('\n')
+            for k in range(len(lines)):
+                yield [req[0], req[1], '\n'.join(lines[:k] + lines[k + 1:])]
+        else:
+            from ..core import _subterms_replace
+            yield from _subterms_replace(req)
+
+
+PROP = C40()
+READY = True
